@@ -105,6 +105,24 @@ Theorem tree_mirror : forall (uni_esc : N -> bool) (compile : bytes -> bytes -> 
   end.
 Proof. exact tree_mirror_lemma. Qed.
 
+(* the converse: nothing else is generated.  Every write a successful compile_templates plans is
+   either the function file of a file of the tree whose (UTF-8) name ends in one of the template
+   suffixes and whose content parses - placed in the mirrored directory and holding exactly the code
+   compiled from that content under that name - or the mod.rs of a (UTF-8 named) directory of the
+   tree.  Files with other names, and templates that fail, leave no file behind. *)
+Theorem nothing_else_generated : forall (uni_esc : N -> bool) (compile : bytes -> bytes -> coutcome) fuel es indir outdir w' f',
+  handle_entries uni_esc compile fuel w_empty [] indir outdir es = BOk _ (w', f') ->
+  forall p c, In (p, c) (plan w') ->
+  (exists ds filename content s, at_path es ds filename content /\ utf8_valid filename = true /\
+     In s template_suffixes /\ ends_with filename s = true /\
+     p = pjoin (dir_join outdir ds) (b "template_" ++ suffix_name filename s ++ b ".rs") /\
+     compile (suffix_name filename s) content = Accepted c) \/
+  (exists ds d sub, dir_at es ds d sub /\ p = pjoin (dir_join outdir (ds ++ [d])) (b "mod.rs")).
+Proof.
+  intros uni_esc compile fuel es indir outdir w' f' H p c I.
+  destruct (tree_mirror_converse_lemma uni_esc compile fuel _ _ _ _ _ _ _ H (p, c) I) as [[]|O]. exact O.
+Qed.
+
 (* the same stem under different suffixes gives different functions; a whole tree *)
 Example same_stem_different_suffix :
   let tree := [(b "a.rs.html", File (b "H")); (b "a.rs.svg", File (b "S")); (b "notes.txt", File (b "x"));
@@ -128,3 +146,4 @@ Redirect "assumptions/C10.subdir_becomes_module" Print Assumptions subdir_become
 Redirect "assumptions/C10.directory_is_sum_of_entries" Print Assumptions directory_is_sum_of_entries.
 Redirect "assumptions/C10.handle_entries_is_framed" Print Assumptions handle_entries_is_framed.
 Redirect "assumptions/C10.tree_mirror" Print Assumptions tree_mirror.
+Redirect "assumptions/C10.nothing_else_generated" Print Assumptions nothing_else_generated.
